@@ -23,6 +23,7 @@ Fixpoint le_n (n : nat) (v : N) : bytes :=
 (* harness-facing: n bytes given as one big-endian number (one numeral instead of n list cells: Coq
    elaborates long list literals at ~250 us per element) *)
 Definition B (n : nat) (v : N) : bytes := rev (le_n n v).
+Definition Zs (k : N) : bytes := repeat 0 (N.to_nat k).      (* k zero bytes *)
 Fixpoint le_v (l : bytes) : N := match l with [] => 0 | b :: tl => b + 256 * le_v tl end.
 Definition tb_decode (v : bytes) : option tb :=
   if N.of_nat (length v) =? 32 then
